@@ -43,6 +43,20 @@ var stubIO = []string{"io.Reader / io.Writer arguments (SimReader, SimWriter)", 
 
 func registry() map[string]*propSpec {
 	return map[string]*propSpec{
+		"C03": {Scenario: "dec-arshal", Make: func() scen.Scenario { return &scen.DecArshal{Mode: "c03"} }, QuickRuns: 200000, ThorRuns: 10000000,
+			Rule: "each run = a stream of 1-6 valid duplicate-free texts whose strings come from small families colliding in the decoder's string-interning cache, decoded into any / map[string]any / []any / a named empty interface through UnmarshalRead (chunked reader) or successive UnmarshalDecode calls on one Decoder (cache history across values), after 0-2 earlier pooled calls (cache history across calls), with semantics-preserving options that switch the internal route (AllowDuplicateNames on duplicate-free input; an Unmarshalers function for *any that declines); all routes must agree with each other, with Unmarshal of each value span, and with the reference decoder (RFC 8259 unescaping, strconv-rounded float64, overflow is an error). distinct = hash of (target, route, buffer class, cuts by lexeme class, input size class); non-trivial = a chunked/short read landed in the run.",
+			Real: realAll, Stub: stubIO},
+		"C20": {Scenario: "all", Make: func() scen.Scenario {
+			return &scen.Multi{Parts: []scen.Part{
+				{W: 6, S: &scen.Depth{}},
+				{W: 4, S: &scen.Dec{Mode: "c20"}}, {W: 2, S: &scen.DecArshal{Mode: "c05"}},
+				{W: 2, S: &scen.Enc{Mode: "c06"}}, {W: 2, S: &scen.Enc{Mode: "c07"}},
+				{W: 4, S: &scen.ArshalMarshal{Mode: "c02"}}, {W: 2, S: &scen.Dispatch{}}, {W: 1, S: &scen.MergeChain{}}, {W: 2, S: &scen.Scope{}},
+				{W: 1, S: &scen.Hist{}},
+			}}
+		}, QuickRuns: 60000, ThorRuns: 6000000, Chunk: 1500, ResetCache: true,
+			Rule: "each run = either a depth-boundary run (a tower nested 9998..10002 deep in a drawn array/object mix with a drawn leaf incl. empty containers, pushed through one of 25 paths: ReadToken/ReadValue/SkipValue loops and token/value splits over a chunked reader, IsValid, Format, Compact, Indent, Canonicalize, WriteToken, WriteValue and token/value splits, Marshal/MarshalWrite/MarshalEncode of deep Go values through []any, map[string]any, pointer chains and recursive slice/map types incl. a peer that re-enters Marshal half-way down, Unmarshal/UnmarshalRead into any and into a linked struct; or a cyclic Go value through pointer, map, slice, interface, pointer-to-pointer (child process), struct ring, deep-then-cycle) with the oracle '10000 accepted, 10001 refused with an error, cycles yield an error'; or one run of any other scenario of this framework (dec, enc, arshal, dispatch, merge, scope, hist) with only the panic/livelock monitor armed. distinct = hash of the run's plan signature; all depth runs count as non-trivial.",
+			Real: realAll, Stub: append([]string{"user marshal methods (scripted peers)"}, stubIO...)},
 		"C05": {Scenario: "dec", Make: func() scen.Scenario {
 			return &scen.Multi{Parts: []scen.Part{{W: 3, S: &scen.Dec{Mode: "c05"}}, {W: 1, S: &scen.DecArshal{Mode: "c05"}}}}
 		}, QuickRuns: 240000, ThorRuns: 24000000,
@@ -99,6 +113,9 @@ func main() {
 		os.Exit(cmdReplay(os.Args[2:]))
 	case "selftest":
 		os.Exit(cmdSelftest(os.Args[2:]))
+	case "probe":
+		scen.ProbeCyclic(os.Args[2])
+		os.Exit(0)
 	default:
 		fmt.Fprintln(os.Stderr, "unknown subcommand", os.Args[1])
 		os.Exit(2)
@@ -260,6 +277,37 @@ type workerResult struct {
 
 const maxSigs = 1 << 19
 
+// hangMarker is where a worker leaves a note before exiting with status 3
+// when one run exceeds the wall-clock limit (suspected non-termination).
+var hangMarker string
+
+type hangNote struct {
+	Prop    string `json:"prop"`
+	Tier    string `json:"tier"`
+	Base    uint64 `json:"base_seed"`
+	RunSeed uint64 `json:"run_seed"`
+	W       int    `json:"w"`
+	R       int    `json:"r"`
+	LimitS  int    `json:"limit_s"`
+}
+
+func hangLimit() time.Duration { return time.Duration(envInt("VERIF_HANG_S", 20)) * time.Second }
+
+// armWatchdog: seam-free infinite loops inside the library cannot be seen by
+// step counting, so a generous wall-clock limit per run (normal runs take
+// milliseconds) ends the process with status 3; the parent then re-executes
+// exactly that run in a fresh process and only reports it if it hangs again.
+func armWatchdog(marker, prop, tier string, base, rs uint64, w, r int) *time.Timer {
+	return time.AfterFunc(hangLimit(), func() {
+		if marker != "" {
+			b, _ := json.Marshal(hangNote{prop, tier, base, rs, w, r, int(hangLimit() / time.Second)})
+			os.WriteFile(marker, b, 0o644)
+		}
+		fmt.Fprintf(os.Stderr, "verifsim: run w=%d r=%d seed=%d exceeded %v: suspected non-termination\n", w, r, rs, hangLimit())
+		os.Exit(3)
+	})
+}
+
 func cmdWorker(args []string) int {
 	fs := flag.NewFlagSet("worker", flag.ExitOnError)
 	prop := fs.String("prop", "", "")
@@ -274,6 +322,9 @@ func cmdWorker(args []string) int {
 	debug.SetGCPercent(-1)
 	debug.SetMemoryLimit(3 << 30) // safety net only; never reached by a well-behaved run
 	loadKnown()
+	if *out != "" {
+		hangMarker = *out + ".hang"
+	}
 	spec := registry()[*prop]
 	if spec == nil {
 		fmt.Fprintln(os.Stderr, "unknown property", *prop)
@@ -306,7 +357,9 @@ func workerLoop(spec *propSpec, prop, tier string, seed uint64, w, first, runs i
 		rs := runSeed(seed, w, r)
 		tape := core.NewTape(rs)
 		wantPlan := len(res.Samples) < 2 && r >= first+runs/2
+		wd := armWatchdog(hangMarker, prop, tier, seed, rs, w, r)
 		o := runOne(spec, prop, tier, tape, stats, wantPlan)
+		wd.Stop()
 		res.Runs++
 		res.Draws += int64(o.Draws)
 		res.LogHash = core.Mix(res.LogHash, o.LogHash)
@@ -382,6 +435,8 @@ type replayFile struct {
 	ShrunkFrom int                 `json:"shrunk_from_draws"`
 	ShrunkTo   int                 `json:"shrunk_to_draws"`
 	Note       string              `json:"note,omitempty"`
+	Hang       bool                `json:"hang,omitempty"`
+	HangProp   string              `json:"hang_prop,omitempty"`
 }
 
 func countDraws(t map[string][]uint32) int {
@@ -472,6 +527,27 @@ func cmdReplay(args []string) int {
 	if err := json.Unmarshal(b, &rf); err != nil {
 		fmt.Fprintln(os.Stderr, "bad replay file:", err)
 		return 2
+	}
+	if rf.Hang {
+		spec := registry()[rf.HangProp]
+		if spec == nil {
+			fmt.Fprintln(os.Stderr, "no scenario for", rf.HangProp)
+			return 2
+		}
+		done := make(chan struct{})
+		go func() {
+			select {
+			case <-done:
+			case <-time.After(hangLimit()):
+				fmt.Printf("REPRODUCED property=C20 class=C20/nontermination site=%s\nthe run did not finish within %v\n", rf.Site, hangLimit())
+				fmt.Printf("VIOLATION property=C20 replay=%s\n", args[0])
+				os.Exit(1)
+			}
+		}()
+		runOne(spec, rf.HangProp, rf.Tier, core.NewTape(rf.RunSeed), core.NewStats(), false)
+		close(done)
+		fmt.Println("NOT-REPRODUCED C20|C20/nontermination: the run finished")
+		return 0
 	}
 	prop := rf.Property
 	spec := registry()[prop]
@@ -568,8 +644,9 @@ func cmdCheck(args []string) int {
 		chunk = spec.Chunk
 	}
 	type slotResult struct {
-		res []*workerResult
-		err error
+		res   []*workerResult
+		err   error
+		hangs []hangNote
 	}
 	ch := make(chan slotResult, *nw)
 	for w := 0; w < *nw; w++ {
@@ -585,6 +662,17 @@ func cmdCheck(args []string) int {
 				cmd.Stderr = os.Stderr
 				cmd.Env = append(os.Environ(), "VERIF_DIR="+verifDir)
 				if err := cmd.Run(); err != nil {
+					if ee, ok := err.(*exec.ExitError); ok && ee.ExitCode() == 3 {
+						if hb, herr := os.ReadFile(out + ".hang"); herr == nil {
+							var hn hangNote
+							if json.Unmarshal(hb, &hn) == nil {
+								sr.hangs = append(sr.hangs, hn)
+								// skip the hanging run and carry on behind it
+								first = hn.R + 1 - chunk
+								continue
+							}
+						}
+					}
 					sr.err = fmt.Errorf("worker %d (runs %d..%d): %v", w, first, first+n, err)
 					break
 				}
@@ -607,6 +695,7 @@ func cmdCheck(args []string) int {
 		}(w)
 	}
 	var results []*workerResult
+	var hangs []hangNote
 	trouble := false
 	for w := 0; w < *nw; w++ {
 		sr := <-ch
@@ -615,6 +704,7 @@ func cmdCheck(args []string) int {
 			trouble = true
 		}
 		results = append(results, sr.res...)
+		hangs = append(hangs, sr.hangs...)
 	}
 	if trouble {
 		fmt.Println("TROUBLE: a worker process failed; no verdict")
@@ -682,6 +772,34 @@ func cmdCheck(args []string) int {
 		confirmed++
 		fmt.Printf("violation: class=%s site=%s shrunk %d->%d draws\n  %s\n", v.Violation.Class, v.Violation.Site, v.ShrunkFrom, v.ShrunkTo, v.Violation.Detail)
 		lines = append(lines, fmt.Sprintf("VIOLATION property=%s replay=%s", v.Violation.Property, v.ReplayFile))
+	}
+	for i, hn := range hangs {
+		if i >= 2 {
+			break
+		}
+		rf := replayFile{Format: 1, Property: "C20", Class: "C20/nontermination", Site: spec.Scenario, Scenario: spec.Scenario, Tier: hn.Tier, BaseSeed: hn.Base, RunSeed: hn.RunSeed,
+			Violation: core.Violation{Property: "C20", Class: "C20/nontermination", Site: spec.Scenario, Detail: fmt.Sprintf("run w=%d r=%d did not finish within %d s (normal runs take milliseconds)", hn.W, hn.R, hn.LimitS)},
+			RepoTree: repoTree(), Hang: true, HangProp: *prop, Note: "the run never finished, so there is no recorded tape to minimise: replay regenerates the run from run_seed"}
+		b, _ := json.MarshalIndent(rf, "", " ")
+		path := filepath.Join(verifDir, "replays", fmt.Sprintf("%s-%d-hang-%d-%d.json", *prop, seed, hn.W, hn.R))
+		os.MkdirAll(filepath.Dir(path), 0o755)
+		os.WriteFile(path, b, 0o644)
+		cmd := exec.Command(os.Args[0], "replay", path)
+		cmd.Env = append(os.Environ(), "VERIF_DIR="+verifDir)
+		out, _ := cmd.CombinedOutput()
+		if strings.Contains(string(out), "REPRODUCED property=C20") {
+			fmt.Printf("violation: class=C20/nontermination: run w=%d r=%d hangs again in a fresh process\n", hn.W, hn.R)
+			if *prop == "C20" {
+				confirmed++
+				lines = append(lines, fmt.Sprintf("VIOLATION property=C20 replay=%s", path))
+			} else {
+				m.Aborted++
+				m.AbortedKeys["C20|C20/nontermination|"+spec.Scenario]++
+			}
+		} else {
+			fmt.Printf("TROUBLE: a run exceeded the time limit once but finished when re-executed (machine load?): %s\n", path)
+			exit = 2
+		}
 	}
 	for _, k := range knownList {
 		if k.Property != *prop {
